@@ -20,7 +20,7 @@ import json, os, sys, collections, concurrent.futures as cf
 from vlib import *
 
 RULES = {"C11": {"StopWithoutStart", "FrameOutsideRunning", "AppendOutsideRunning", "CallAfterClose", "WriteAfterClose",
-                 "DoubleClose", "OpenNotClosed", "CloseNotForwarded", "ReportedStateNotFromDriver", "StatusNotFromDriver",
+                 "DoubleClose", "CallOnUnknownDevice", "OpenNotClosed", "CloseNotForwarded", "ReportedStateNotFromDriver", "StatusNotFromDriver",
                  "Crash"}}
 HARNESS_RULES = {"Malformed", "UnknownEvent", "UnknownHandle", "DrvOutsideCall"}
 
